@@ -46,6 +46,27 @@ def gen_op(rng, n, kind):
             op = dict(cls="Fock", regs=[rng.randrange(n)], pars=[rng.choice([0, 1, 2])])
         else:
             op = sim.rand_gaussian_op(rng, n, classes=[cls], allow_two=False, allow_channel=False)
+    elif kind == "ketprep":     # multi-mode Ket / DensityMatrix preparation on a mode list in any order (prepare_multimode)
+        k = rng.randint(1, min(2, n))
+        regs = rng.sample(range(n), k)
+        D = 8
+        nprng = np.random.default_rng(rng.getrandbits(32))
+        amp = np.zeros((D,) * k, dtype=complex)
+        sub = (3,) * k
+        block = nprng.normal(size=sub) + 1j * nprng.normal(size=sub)
+        if rng.random() < 0.3:
+            block[(0,) * k] = 0
+        amp[tuple(slice(0, 3) for _ in range(k))] = block
+        amp /= np.linalg.norm(amp)
+        amp = np.round(amp, 9)
+        if rng.random() < 0.5:
+            op = dict(cls="Ket", regs=regs, pars=[], apars=[dict(re=amp.real.tolist(), im=amp.imag.tolist())])
+        else:
+            rho = np.multiply.outer(amp, amp.conj())
+            order = [x for m in range(k) for x in (m, m + k)]
+            rho = np.transpose(rho, order)
+            op = dict(cls="DensityMatrix", regs=regs, pars=[], apars=[dict(re=rho.real.tolist(), im=rho.imag.tolist())])
+        op["_ket"] = dict(re=amp.real.tolist(), im=amp.imag.tolist())
     elif kind == "passive":     # natively applied multi-mode passive transformation, mode list in any order
         op = sim.rand_passive_op(rng, np.random.default_rng(rng.getrandbits(32)), n)
     elif kind == "gprep":       # natively applied multi-mode Gaussian preparation
@@ -72,6 +93,8 @@ def backends_for(op):
         return ["fock-pure", "fock-mixed"]
     if c == "ThermalLossChannel":
         return ["gaussian", "bosonic"]
+    if c in ("Ket", "DensityMatrix"):
+        return ["fock-pure", "fock-mixed"]
     if c == "PassiveChannel":
         return ["gaussian"]
     if c == "Gaussian":
@@ -116,6 +139,18 @@ def spect_dm(st, keep):
 
 
 def check_case(ctx, sf, prefix, op, n, backend, cutoff=8):
+    """guard: an exception raised while evaluating a case on the real code is a failing input, not a harness crash"""
+    try:
+        _check_case(ctx, sf, prefix, op, n, backend, cutoff)
+    except Exception as e:  # noqa: BLE001
+        import traceback
+        where = traceback.extract_tb(e.__traceback__)[-1]
+        ctx.fail(f"evaluation-raises:{backend}:{op['cls']}:{type(e).__name__}",
+                 f"evaluating {op['cls']} on {op['regs']} on {backend} raised {type(e).__name__}: {e} ({where.name}:{where.lineno})",
+                 dict(kind="local", prefix=prefix, op=op, n=n, backend=backend))
+
+
+def _check_case(ctx, sf, prefix, op, n, backend, cutoff=8):
     spec0 = dict(n=n, ops=prefix)
     spec1 = dict(n=n, ops=prefix + [op])
     T = list(op["regs"])
@@ -125,6 +160,10 @@ def check_case(ctx, sf, prefix, op, n, backend, cutoff=8):
     is_meas = op["cls"].startswith("Measure")
     is_prep = op["cls"] in PREPS + ["Fock"]
     is_gprep = op["cls"] == "Gaussian"
+    is_ket = op["cls"] in ("Ket", "DensityMatrix")
+    if is_ket and cutoff != 8:
+        return
+    op = {k: v for k, v in op.items() if k != "_ket"} if False else op
     try:
         st0 = run_state(sf, spec0, backend, cutoff)
         st1 = run_state(sf, spec1, backend, cutoff)
@@ -155,7 +194,14 @@ def check_case(ctx, sf, prefix, op, n, backend, cutoff=8):
         return d2 > max(1e-5, measure.last / 2) and d2 > 5 * (cutoff + 6) * loss2 + 1e-6
 
     # 1. spectators
-    if S and not is_meas:
+    if S and is_ket:      # no truncation effect: the same truncated prefix state on both sides
+        r0, _ = spect_dm(st0, S)
+        r1, _ = spect_dm(st1, S)
+        d = float(np.max(np.abs(r0 - r1)))
+        if d > 1e-8:
+            ctx.fail(f"spectator-changed:{backend}:{op['cls']}", f"{op['cls']} on modes {T} changed the reduced state of the "
+                     f"spectators {S} by {d:.3g} on {backend}", rp)
+    elif S and not is_meas:
         def spect(s0, s1):
             a0, a1 = moments(sf, s0, backend), moments(sf, s1, backend)
             d = sim.moment_dist(restrict(a0, S), restrict(a1, S))
@@ -171,6 +217,25 @@ def check_case(ctx, sf, prefix, op, n, backend, cutoff=8):
                      f"{op['cls']}{'.H' if op.get('dagger') else ''} on modes {T} changed the reduced state of the "
                      f"spectators {S} by {d:.3g} on {backend}", rp)
     # 2. post-state of preparations / measurements: target uncorrelated with the rest, in the documented state
+    if is_ket:
+        # documented post-state: the given state on the listed modes IN THE LISTED ORDER, in product with the rest
+        want = np.array(op["_ket"]["re"]) + 1j * np.array(op["_ket"]["im"])
+        k = len(T)
+        rho_t, _ = spect_dm(st1, T)                       # own partial trace, modes in the order of T
+        want_dm = np.transpose(np.multiply.outer(want, want.conj()), [x for m in range(k) for x in (m, m + k)])
+        d = float(np.max(np.abs(rho_t - want_dm)))
+        if d > 1e-8:
+            ctx.fail(f"post-state:{backend}:{op['cls']}", f"{op['cls']} on modes {T} (in that order) left a different state on "
+                     f"those modes (distance {d:.3g}) on {backend}", rp)
+        if S:
+            full, _ = spect_dm(st1, S + T)
+            rs, _ = spect_dm(st1, S)
+            prod = np.multiply.outer(rs, rho_t)
+            d2 = float(np.max(np.abs(full - prod)))
+            if d2 > 1e-8:
+                ctx.fail(f"target-correlated:{backend}:{op['cls']}", f"after {op['cls']} on {T} the state is not a product of the "
+                         f"rest and the prepared state ({d2:.3g}) on {backend}", rp)
+        return
     if is_prep or is_meas or is_gprep:
         def cross(s0, s1):
             a1 = moments(sf, s1, backend)
@@ -214,7 +279,7 @@ def run(ctx, sf):
     simcorr.run_bos_corr(ctx, ctx.n(100, 1000))
     simcorr.run_gauss_corr(ctx, ctx.n(100, 1000))
     rng = ctx.rng
-    kinds = ["g1", "g2", "nong", "ch", "prep", "meas", "passive", "gprep"]
+    kinds = ["g1", "g2", "nong", "ch", "prep", "meas", "passive", "gprep", "ketprep"]
     for it in range(ctx.n(48, 600)):
         n = rng.choice([2, 3, 3, 4])
         prefix = sim.correlated_prefix(rng, n)
